@@ -21,6 +21,12 @@ CLAIMS = {
          "DESIGN.md §3 C13",
          "Trusted: rustc front end, fact emitter, the ROBDD package (self-checked each run), 10 reference word functions; assumes cmux selects hi on bit=1 (C04) and the thread partition maps bit i to circuit i (checked under C20).",
          "abstract interpretation of constant tables over ROBDDs + MIR pattern match of the evaluator", True),
+
+ "C20": ("other",
+         "Structural non-interference argument: no shared mutable state anywhere in the library crates (statics, interior mutability, atomics/locks/thread_local), backend handle only read through Module::ptr, no unsafe in the threaded crate, and at both thread::scope sites the partition is exact (chunk = ceil(items/threads) of the very slice chunked, same `threads` for the scratch windows, global index = base + thread*chunk + local, decided as polynomial identities over MIR); single-thread variants forward with threads = 1. Decides the scheduling/partition clauses for every thread count at once; does not execute anything, so bit-equality of the per-item computation relies on C11/C12 clauses.",
+         "DESIGN.md §3 C20",
+         "Trusted: rustc borrow checker and std::thread::scope; per-item determinism is delegated to C11/C12 rules.",
+         "MIR dataflow + polynomial identity of partition indices + type/field walk for shared state", True),
 }
 NOT_BUILT = {}
 
